@@ -234,7 +234,7 @@ def build(case):
         for _ in range(b.get('pings', 0)):
             items.insert(rng.randrange(len(items) + 1 - nfixed),
                          {'kind': 'ping', 'hex': bytes([rng.randrange(256)
-                                                        for _ in range(5)]).hex()})
+                                                        for _ in range(rng.choice([5, 5, 0, 1, 124, 125]))]).hex()})
         if b['kind'] == 'exact':
             tmp = ST.encode_items(items)
             rest = b['mult'] * 65536 - len(tmp.stream)
